@@ -240,15 +240,20 @@ Definition arms_type (sup : tname -> tname -> bool) (arms : list (list tname)) :
 (* ------------------------------------------------------------------------------------------------ *)
 (** ** (b) [extract_class]: order of the statements of a class body *)
 
+(** The code modelled here is the one after /repo commit 88d54a3 ("class body statements no longer come out in
+    hash-map order"): the recorded position is a PAIR (slot, kind) with kind 0 = statement, 1 = generated
+    constructor, 2 = function, compared lexicographically ([Ord] for tuples).  The numbering before that commit
+    used the slot alone; it is kept as [class_body_old] only to state what the defect (D15) was. *)
+
 (** what [extract_class] distinguishes in a converted body statement *)
 Inductive member : Type :=
-| MFun (id : string)        (* Core::FunDef { id, .. }            key Core::Id{id}        pos i+2 *)
-| MOp (op : string)         (* Core::FunDefOp { op, .. }          key Core::Id{"{op}"}    pos i+2 *)
+| MFun (id : string)        (* Core::FunDef { id, .. }            key Core::Id{id}        pos (i+2, 2) *)
+| MOp (op : string)         (* Core::FunDefOp { op, .. }          key Core::Id{"{op}"}    pos (i+2, 2) *)
 | MVar (key : string) (is_id : bool)
                             (* Core::VarDef { var, .. }: the key is the Core [var] itself; [is_id] says it is a
                                plain [Core::Id{key}] (then it shares the key space of the functions), otherwise
-                               [key] is the printed form of a non-Id Core (tuple pattern)              pos i *)
-| MOther.                   (* anything else (doc string)          key Core::Id{"@"}       pos i   *)
+                               [key] is the printed form of a non-Id Core (tuple pattern)         pos (i, 0) *)
+| MOther.                   (* anything else (doc string)          key Core::Id{"@"}       pos (i, 0) *)
 
 Inductive key : Type := KId (s : string) | KCore (s : string).
 Definition key_eqb (a b : key) : bool :=
@@ -261,15 +266,18 @@ Definition key_eqb (a b : key) : bool :=
 (** which statement: the [i]-th of the body, or the constructor synthesised by [init] *)
 Inductive label : Type := LStmt (i : nat) | LInit.
 
-Record entry : Type := { e_key : key; e_pos : nat; e_var : bool; e_lab : label }.
+Record entry : Type := { e_key : key; e_pos : nat; e_kind : nat; e_var : bool; e_lab : label }.
+
+(** the recorded position [(usize, usize)] *)
+Definition e_pk (e : entry) : nat * nat := (e_pos e, e_kind e).
 
 Definition stmt_entry (i : nat) (m : member) : entry :=
   match m with
-  | MFun id => {| e_key := KId id; e_pos := i + 2; e_var := false; e_lab := LStmt i |}
-  | MOp op => {| e_key := KId op; e_pos := i + 2; e_var := false; e_lab := LStmt i |}
-  | MVar k true => {| e_key := KId k; e_pos := i; e_var := true; e_lab := LStmt i |}
-  | MVar k false => {| e_key := KCore k; e_pos := i; e_var := true; e_lab := LStmt i |}
-  | MOther => {| e_key := KId "@"; e_pos := i; e_var := false; e_lab := LStmt i |}
+  | MFun id => {| e_key := KId id; e_pos := i + 2; e_kind := 2; e_var := false; e_lab := LStmt i |}
+  | MOp op => {| e_key := KId op; e_pos := i + 2; e_kind := 2; e_var := false; e_lab := LStmt i |}
+  | MVar k true => {| e_key := KId k; e_pos := i; e_kind := 0; e_var := true; e_lab := LStmt i |}
+  | MVar k false => {| e_key := KCore k; e_pos := i; e_kind := 0; e_var := true; e_lab := LStmt i |}
+  | MOther => {| e_key := KId "@"; e_pos := i; e_kind := 0; e_var := false; e_lab := LStmt i |}
   end.
 
 (** [HashMap::insert]: an existing key keeps its slot and gets the new value, a new key is added.
@@ -295,32 +303,33 @@ Definition init_key : key := KId "__init__".
 Definition find_init (enum : list entry) : option entry :=
   find (fun e => key_eqb (e_key e) init_key) enum.
 
-(** [.values().filter(VarDef).map(pos + 1).max().unwrap_or(0)] over an enumeration *)
+(** first component of [.values().filter(VarDef).map(|((pos, _), _)| (pos + 1, 1)).max().unwrap_or((0, 1))] over
+    an enumeration: every candidate has second component 1, so the maximum of the pairs is the maximum of the
+    first components; with a field present it is at least 1, without any it is the default 0 *)
 Definition init_pos_new (enum : list entry) : nat :=
   fold_left (fun acc e => if e_var e then Nat.max acc (e_pos e + 1) else acc) enum 0.
 
 (** content of the map after [body_name_stmts.insert(init, (pos, new_init))], computed by iterating [enum];
-    [mk_init] says whether [init(..)] returned [Some] *)
+    [mk_init] says whether [init(..)] returned [Some].  An existing [__init__] key keeps its pair untouched,
+    otherwise the constructor gets [(max field slot + 1, 1)] or [(0, 1)]. *)
 Definition add_init (mk_init : bool) (enum : list entry) : list entry :=
   if mk_init then
-    let pos := match find_init enum with Some o => e_pos o | None => init_pos_new enum end in
-    map_insert {| e_key := init_key; e_pos := pos; e_var := false; e_lab := LInit |} enum
+    let pk := match find_init enum with Some o => e_pk o | None => (init_pos_new enum, 1) end in
+    map_insert {| e_key := init_key; e_pos := fst pk; e_kind := snd pk; e_var := false; e_lab := LInit |} enum
   else enum.
 
-Definition pos_cmp (a b : entry) : comparison := Nat.compare (e_pos a) (e_pos b).
+(** [Ord for (usize, usize)] *)
+Definition pk_cmp (a b : nat * nat) : comparison :=
+  match Nat.compare (fst a) (fst b) with Eq => Nat.compare (snd a) (snd b) | r => r end.
+
+Definition pos_cmp (a b : entry) : comparison := pk_cmp (e_pk a) (e_pk b).
 
 (** [body_name_stmts.values().sorted_by_key(|(pos, _)| *pos).map(stmt)] over an enumeration of the final map *)
 Definition class_body (enum : list entry) : list label := map e_lab (isort pos_cmp enum).
 
-Fixpoint nodupb (l : list nat) : bool :=
-  match l with
-  | [] => true
-  | x :: t => negb (existsb (Nat.eqb x) t) && nodupb t
-  end.
-
-(** the decidable trigger: two statements of the final map have the same recorded position *)
-Definition has_tie (mk_init : bool) (ms : list member) : bool :=
-  negb (nodupb (map e_pos (add_init mk_init (entries ms)))).
+(** the numbering BEFORE commit 88d54a3: only the slot was compared (historical, see [d15_old_numbering_refuted]) *)
+Definition class_body_old (enum : list entry) : list label :=
+  map e_lab (isort (fun a b => Nat.compare (e_pos a) (e_pos b)) enum).
 
 Definition label_eqb (a b : label) : bool :=
   match a, b with LStmt i, LStmt j => Nat.eqb i j | LInit, LInit => true | _, _ => false end.
@@ -336,7 +345,8 @@ Fixpoint dedup_labels (l : list (list label)) : list (list label) :=
   | x :: t => if existsb (labels_eqb x) t then dedup_labels t else x :: dedup_labels t
   end.
 
-(** every body the class can get, over all iteration orders of the final map *)
+(** every body the class can get, over all iteration orders of the final map (a singleton, by
+    [class_body_deterministic]) *)
 Definition class_body_outcomes (mk_init : bool) (ms : list member) : list (list label) :=
   dedup_labels (map class_body (perms (add_init mk_init (entries ms)))).
 
